@@ -6,7 +6,7 @@ ID = "C14"
 LEVEL = "proof"
 PROPS_FILE = "C14.v"
 RUN_MODULE = "RunC14"
-TRANSLATOR_UNITS = []
+TRANSLATOR_UNITS = ["wiring"]
 SHARD = 250
 RULE = ("signature trees built with the real API: (1) exhaustive chains of nested interface members "
         "(every In/Out x FlippedSignature-wrapper combination, depth <= 3, sampled at depth 4) and all 1-member / sampled "
